@@ -212,6 +212,9 @@ def verify_add_resource_naming():
             fv.add("new-name-was-not-visible", lab, list(p.pc), z3.Not(A[n]))
             for cn, f in origins_parts(v1, A1, o1):
                 fv.add("origins-preserved:" + cn, lab, pre, f)
+            if not getattr(fv, "_canary", False):
+                fv._canary = True
+                fv.add("canary:origins-premises-consistent", lab, pre, z3.BoolVal(False), expect_sat="not-unsat")
     fv.add("cover:accepting-and-name-refusing-paths-exist", "vacuity", [], z3.BoolVal(n_ret > 0 and n_name_refusals > 0))
     fv.add_engine_obligations(ex)
     return fv
@@ -315,6 +318,9 @@ def verify_add_window_naming():
                                 z3.ForAll([_r], NSc(window.ref, _r) == B[_r])]                                # definition of NSc for this (now frozen) window
             for cn, f in origins_parts(v1, A1, o1):
                 fv.add("origins-preserved:" + cn, lab, pre, f)
+            if not getattr(fv, "_canary", False):
+                fv._canary = True
+                fv.add("canary:origins-premises-consistent", lab, pre, z3.BoolVal(False), expect_sat="not-unsat")
         fv.add("namespace-stays-prefix-free", lab, p.pc, prefix_free(A1))
     fv.add("cover:named-anonymous-and-name-refusing-paths-exist", "vacuity", [], z3.BoolVal(n_named > 0 and n_anon > 0 and n_name_refusals > 0))
     fv.add_engine_obligations(ex)
@@ -351,6 +357,9 @@ def verify_all_resources_paths():
             pre += [o.WAn[ent], NSc(ent, F)]
         fv.add("first-path-element-is-a-visible-name-originating-from-the-range-entry", lab, pre,
                z3.And(A[F], o.Src[F] == ent) if F is not None else z3.BoolVal(False))
+        if ci is not None and not named and not getattr(fv, "_canary", False):
+            fv._canary = True
+            fv.add("canary:origins-premises-consistent", lab, pre, z3.BoolVal(False), expect_sat="not-unsat")
     fv = c03.verify_all_resources("MemoryMap.all_resources[paths]", pre_hook, yield_hook, only_hook=True)
     # two resources reached through DIFFERENT range entries have different, hence (prefix-freeness) unrelated first names
     A, o = state["A"], state["o"]
